@@ -19,6 +19,12 @@ def main():
     seed = int(os.environ.get("VERIF_SEED", "0") or 0)
     os.environ[common.GUARD] = "1"
     os.environ.setdefault("OMP_NUM_THREADS", "1")
+    # one run per property at a time: translator output (lean/Pyunicorn/Generated/*<pid>*), the
+    # property's .olean files and its driver are per-property shared state
+    import fcntl
+    os.makedirs(os.path.join(common.VERIF, ".build"), exist_ok=True)
+    lock = open(os.path.join(common.VERIF, ".build", f"run-{a.pid}.lock"), "w")
+    fcntl.flock(lock, fcntl.LOCK_EX)
     ctx = common.Ctx(a.pid, a.tier, seed)
     try:
         common.use_build()
